@@ -41,7 +41,7 @@ contract(FW + '::_SubHelper.replace', ['C29'], dict(self=helper(), text=OpaqueT(
                   "implies(self._current_location != self._replace_location, same_object(result, ghost('orig')))",
                   "implies(self._current_location == self._replace_location, ghost('orig') is None)"],
          modifies=['self._current_location'], assumed=GRP, inline={'_getformat'}, ghost_init={'orig': None},
-         canaries=[('field counter compared before it is advanced', ("        self._current_location += 1\n        if self._current_location == self._replace_location:", "        if self._current_location == self._replace_location:\n            self._current_location += 1"), 'post')])
+         canaries=[('field counter compared before it is advanced', ("self._current_location += 1\n\n        if self._current_location == self._replace_location:", "self._current_location += 1\n\n        if self._current_location - 1 == self._replace_location:"), 'post')])
 
 contract(FW + '::_SubHelper.replace_array', ['C29'],
          dict(self=helper(_newtext=ListT(FP(), 'abc', FP())), text=OpaqueT('match')), fp=True,
